@@ -375,7 +375,9 @@ def check_forwarders(rep, core):
         if f.j.get('exp') or '::testing' in f.npath:
             continue
         for scrut in command_output_matches(f):
-            n += 1
+            # a match that lives in a helper spliced into several functions stands for one site in each of them
+            root_ = f.root or f.path
+            n += max(1, len(set(h.root or h.path for h in core.built if root_ in (h.j.get('inlined') or []) and (h.root or h.path) != root_)))
             for variant, chans, other in (('Effect', ('shell_channel', 'effects'), ('app_channel', 'events')),
                                           ('Event', ('app_channel', 'events'), ('shell_channel', 'effects'))):
                 sinks = payload_sinks(f, scrut, variant)
